@@ -1305,6 +1305,14 @@ def c15_tasks(tier):
                         scw["level"] = 2
                         tasks.append(dict(id=f"pipe-{'+'.join(combo)}-edquot", scen=scw, oracles=["Obs", "C15"], budget=(0, 1),
                                           fault=dict(plan="c11", kinds=["write"]), cls="pipeline+write-fault"))
+                    # (a3) cancel-jobs on the running first stage while one scancel request fails (the batch keeps running):
+                    # the next stage must still wait for it
+                    if combo == ("two-batches", "one"):
+                        scc = copy.deepcopy(sc)
+                        scc["free_at_poll"] = True
+                        scc["actors"].append(dict(name="cancel", argv=["jade", "cancel-jobs", "{stage}"], host="login4", guard="pipeline_stage_submitted"))
+                        tasks += shard([dict(id=f"pipe-{'+'.join(combo)}-cancel-scancel-fault", scen=scc, oracles=["Obs", "C15"], budget=(0, 1),
+                                             fault=dict(plan="c11", kinds=["scancel"]), cls="pipeline+cancel+scancel-fault", weight=8)], 6)
                     # (b) a failing first job with cancel flags on the others: canceled jobs have results, they are not missing
                     scf = copy.deepcopy(sc)
                     first = stages[0]["jobs"][0]["name"]
@@ -1357,7 +1365,7 @@ def c15_tasks(tier):
 def c15(tier):
     tasks = c15_tasks(tier)
     bounds = ("pipelines of 1-3 (thorough 4) stages over 5 stage shapes (1 job; 2 jobs in 2 batches; 2 jobs in 1 batch; 2-job chain; local), stage configs with and without their own submission groups, "
-              "a failing job in stage 1, a refused batch (stage ends with missing jobs), a middle stage whose only batch is refused, a failing stage teardown command, squeue failing for a whole round, EDQUOT at any single write (L2), a failing job with cancel flags, a user-run try-submit-jobs on the current stage at any point, a duplicated stage-2 trigger at any later point; jade pipeline submit as the login process, next stages triggered by the real submit-next-stage; 1 preemption on <=2-stage pipelines (all in thorough) with the recovery actor on the current stage")
+              "a failing job in stage 1, a refused batch (stage ends with missing jobs), a middle stage whose only batch is refused, a failing stage teardown command, squeue failing for a whole round, EDQUOT at any single write (L2), cancel-jobs on the first stage with one failing scancel request, a failing job with cancel flags, a user-run try-submit-jobs on the current stage at any point, a duplicated stage-2 trigger at any later point; jade pipeline submit as the login process, next stages triggered by the real submit-next-stage; 1 preemption on <=2-stage pipelines (all in thorough) with the recovery actor on the current stage")
     return explore_check("C15", tier, tasks, S_RULE, COMMON_ASSUMPTIONS + ["auto-config commands are not explored (they write relative to the process cwd); stage config files only"], dict(bounds=bounds))
 
 
